@@ -13,7 +13,7 @@
    [genuine open q g h] is the conjunction of the property's clauses for
    datagram g with decoded header h (Proofs/ClientAcceptProofs.v, spelled out
    by C05_genuine_clauses below). *)
-From ST Require Import Base.Ints Model.NtpTime Model.ClientAccept Proofs.ClientAcceptProofs.
+From ST Require Import Base.Ints Model.NtpTime Model.ClientAccept Model.AuthModes Proofs.ClientAcceptProofs.
 From Coq Require Import ZArith List Bool.
 Import ListNotations.
 Open Scope Z_scope.
@@ -552,3 +552,33 @@ Example C05_ex_oracle_rejects :
          [{| o_from_server := false; o_payload := ex_good; o_uid_ok := false; o_auth_ok := false; o_spao_ok := true |}]
          (ObsOffset 1700000000000001000 1700000000000232830 1700000000000465661 1700000000000900000 (-101254)) = false.
 Proof. vm_compute. reflexivity. Qed.
+
+(* ------------------------------------------------------------------ *)
+(* "When NTS is enabled": enabled by configuration (auth_modes).        *)
+(* Model/AuthModes.v: the flags createClocks gives every client.        *)
+(* ------------------------------------------------------------------ *)
+
+(* every client the service builds has NTS on iff "nts" is among auth_modes ... *)
+Theorem C05_cfg_nts_iff_configured : forall modes daemon scion,
+  a_nts (wired_client modes daemon scion) = true <-> In mode_nts modes.
+Proof. exact wired_client_nts. Qed.
+Print Assumptions C05_cfg_nts_iff_configured.
+
+(* ... whatever the order of the list, repetitions, and entries the service does not know *)
+Theorem C05_cfg_order_irrelevant : forall l1 l2 daemon scion,
+  (forall x, In x l1 <-> In x l2) -> wired_client l1 daemon scion = wired_client l2 daemon scion.
+Proof. exact wired_client_perm. Qed.
+Print Assumptions C05_cfg_order_irrelevant.
+
+(* the oracle of the case kind svc.authmodes holds of the model for every configuration *)
+Theorem C05_cfg_oracle_holds_of_model : forall modes daemon scions,
+  C05_cfg_ok modes (map (wired_client modes daemon) scions) = true.
+Proof. exact cfg_oracle_holds_of_model. Qed.
+Print Assumptions C05_cfg_oracle_holds_of_model.
+
+(* the oracle rejects the wiring in which only the last entry of auth_modes counts *)
+Example C05_ex_cfg_last_entry_only :
+  C05_cfg_ok [mode_nts; mode_spao]
+             [{| a_auth := true; a_nts := false; a_ke := 0; a_quic := false; a_drkey := true |}] = false /\
+  C05_cfg_ok [mode_nts; mode_spao] [wired_client [mode_nts; mode_spao] true true; wired_client [mode_nts; mode_spao] true false] = true.
+Proof. split; vm_compute; reflexivity. Qed.
